@@ -45,4 +45,3 @@ func debugDump(c *Ctx, what string) {
 		fmt.Println(" ", fnKey(f), c.Pos(f.Pos()))
 	}
 }
-
